@@ -104,9 +104,9 @@ theorem compose_atoms (first : Atom) (rest : RSym) (hw : WFR rest) (ht : rest.ha
     have hne : ch ≠ [] := by intro e; rw [e] at hlen; simp at hlen
     have hid : ch ≠ [Atom.id] := by intro e; rw [e] at hlen; simp at hlen
     by_cases hf : first.isSet = true
-    · simp only [compose, hf, Bool.not_true, Bool.false_eq_true, if_false, RSym.atoms, hid, WFR]
-      refine ⟨by simp, hall, by simp, by simp [pathIsSet, hf], by simp; omega, ?_⟩
-      rw [hty]; simp [pathTy_cons first ch hne]
+    · simp only [compose, hf, Bool.not_true, Bool.false_eq_true, if_false, RSym.atoms, List.append_nil, hid, WFR]
+      refine ⟨trivial, by simp, by simp [pathIsSet, hf], by simp; omega, ?_⟩
+      rw [hty, pathTy_cons first ch hne]
     · have hf' : first.isSet = false := by simpa using hf
       simp only [compose, hf', Bool.not_false, if_true, RSym.atoms, hid, if_false, WFR]
       refine ⟨trivial, by simp [hf', hall], by simp; omega, ?_⟩
@@ -502,7 +502,107 @@ theorem resolve_out_of_range (defs : List StoreDef) (t : Nat) (h : defs[t]? = no
   | [p] => by simp [resolve, lookupSym, h]
   | p :: q :: rest => by simp [resolve, h]
 
-/-! ### names with at most three segments resolve regularly -/
+/-! ### after 0441eb9 no resolved symbol carries a non-iterable tail: every name resolves regularly -/
+
+theorem compose_noTail (first : Atom) (rest : RSym) : (compose first rest).hasTail = false := by
+  cases rest with
+  | atom a => cases a <;> simp only [compose] <;> (try split) <;> rfl
+  | nonSetComp ch ty => simp only [compose]; split <;> rfl
+  | compSet iter last ty => rfl
+
+theorem resolve_noTail (defs : List StoreDef) : ∀ (parts : List String) (st : Nat) (r : RSym),
+    resolve defs st parts = some r → r.hasTail = false
+  | [], st, r, h => by simp [resolve] at h
+  | [p], st, r, h => by
+    simp only [resolve] at h
+    cases hl : lookupSym defs st p with
+    | none => simp [hl] at h
+    | some a => simp [hl] at h; subst h; rfl
+  | p :: q :: rest, st, r, h => by
+    simp only [resolve] at h
+    cases hd : defs[st]? with
+    | none => simp [hd] at h
+    | some d =>
+      simp only [hd] at h
+      cases hm : d.maps.lookup p with
+      | some ty =>
+        simp only [hm] at h
+        split at h
+        · simp at h; subst h; rfl
+        · simp at h
+      | none =>
+        simp only [hm] at h
+        cases hl : lookupSym defs st p with
+        | none => simp [hl] at h
+        | some first =>
+          simp only [hl] at h
+          cases hlk : first.linked with
+          | none => simp [hlk] at h
+          | some st' =>
+            simp only [hlk] at h
+            cases first with
+            | id => simp at h
+            | mapElem a b c d => simp [Atom.linked] at hlk
+            | field fs fk ft fl =>
+              simp only [Option.map_eq_some_iff] at h
+              obtain ⟨x, _, rfl⟩ := h
+              exact compose_noTail _ x
+            | set fs fk ft fl =>
+              simp only [Option.map_eq_some_iff] at h
+              obtain ⟨x, _, rfl⟩ := h
+              exact compose_noTail _ x
+
+theorem regular_all (defs : List StoreDef) : ∀ (parts : List String) (st : Nat), regularParts defs st parts = true
+  | [], _ => rfl
+  | [_], _ => rfl
+  | p :: q :: rest, st => by
+    rw [regularParts]
+    cases defs[st]? with
+    | none => rfl
+    | some d =>
+      simp only
+      cases d.maps.lookup p with
+      | some _ => rfl
+      | none =>
+        simp only
+        cases lookupSym defs st p with
+        | none => rfl
+        | some first =>
+          simp only
+          cases first.linked with
+          | none => rfl
+          | some st' =>
+            simp only [regular_all defs (q :: rest) st', Bool.true_and]
+            cases hr : resolve defs st' (q :: rest) with
+            | none => rfl
+            | some x => simp [resolve_noTail defs (q :: rest) st' x hr]
+
+theorem nameOK_all (defs : List StoreDef) (sub : Bool) (t : Nat) (n : String) : nameOK defs sub t n = true := by
+  simp only [nameOK, regular_all, Bool.true_and]
+  cases hr : resolve defs t (splitName n) with
+  | none => simp
+  | some r => simp [resolve_noTail defs _ t r hr]
+
+theorem namesOK_all (defs : List StoreDef) : ∀ (f : U F) (t : Nat), namesOK defs t f = true := by
+  intro f
+  induction f with
+  | sym n => intro t; exact nameOK_all defs false t n
+  | setFn fn n => intro t; exact nameOK_all defs false t n
+  | setFnSub fn n q sk li ih =>
+    intro t
+    simp only [namesOK, nameOK_all, Bool.true_and]
+    cases (dbSigma defs).setTypes t n with
+    | none => rfl
+    | some t' => exact ih t'
+  | boolC b => intro t; rfl
+  | cmp op l r ih => intro t; exact ih t
+  | inArr l arr ih => intro t; exact ih t
+  | between l lo hi ih => intro t; exact ih t
+  | notE e ih => intro t; exact ih t
+  | unot e ih => intro t; exact ih t
+  | logic o l r ihl ihr => intro t; simp [namesOK, ihl t, ihr t]
+
+/-! ### names with at most three segments resolve regularly (independently of the repair) -/
 
 theorem compose_atom_noTail (first a : Atom) : (compose first (.atom a)).hasTail = false := by
   cases a <;> simp only [compose] <;> (try split) <;> rfl
